@@ -150,6 +150,35 @@ func judgeGrowth(r *Run, j *Judged) {
 			break
 		}
 	}
+	// every stored entry is reachable from its URI's index (an unreachable one can never be invalidated or reused)
+	if !r.Sim.Hung {
+		j.count("C19", "orphan-entry")
+		r.mu.Lock()
+		var orphans []string
+		for k := range r.Live {
+			i := strings.LastIndex(k, "#")
+			if i < 0 {
+				continue
+			}
+			// (only for URIs whose Vary never changes: replacing a record by one with another Vary leaves the
+			// replaced variant's entry behind, which is bounded by the number of variants and not an invalidation matter)
+			stable := false
+			for ri := range r.Scn.Resources {
+				if strings.Contains(k, fmt.Sprintf("/r%d/", ri)) {
+					_, stable = r.varyStable(ri)
+				}
+			}
+			idx, ok := r.Live[k[:i]]
+			if stable && (!ok || !strings.Contains(string(idx), jsonEsc(k))) {
+				orphans = append(orphans, k)
+			}
+		}
+		r.mu.Unlock()
+		sort.Strings(orphans)
+		if len(orphans) > 0 {
+			j.fail("C19", "orphan-entry", nil, "", "%d stored entr(ies) are referenced by no index at the end of the history, e.g. %q", len(orphans), orphans[0])
+		}
+	}
 	if r.Scn.FinalPurge && !r.Sim.Hung {
 		j.count("C19", "invalidation-leak")
 		r.mu.Lock()
